@@ -43,6 +43,7 @@ func newGen(ld *Loader, cs *ContractSet, fn *ssa.Function, c *Contract) *Gen {
 		declared: map[string]bool{}, rootFn: fn, rootC: c, notes: map[string]bool{}, trusted: map[string]bool{}, globals: map[string]string{},
 		funcIDs: map[string]int{}, boxAx: map[string]bool{}, ufs: map[string]ufDecl{}, ordinals: map[string]int{}, obNames: map[string]int{}, allocKinds: map[string]bool{}}
 	g.regKey("$alloc", "Int", "alloc")
+	g.curBlk = -1
 	return g
 }
 
@@ -63,6 +64,7 @@ func verifyFunction(ld *Loader, cs *ContractSet, fn *ssa.Function, c *Contract) 
 	var prevInfo map[string]KeyInfo
 	var loopMods map[string]map[string]bool
 	var loopAll map[string]bool
+	var loopAllBut map[string]map[string]bool
 	allocKinds := map[string]bool{}
 	for pass := 1; pass <= 4; pass++ {
 		g = newGen(ld, cs, fn, c)
@@ -78,6 +80,7 @@ func verifyFunction(ld *Loader, cs *ContractSet, fn *ssa.Function, c *Contract) 
 			}
 			g.loopMods = loopMods
 			g.loopAll = loopAll
+			g.loopAllBut = loopAllBut
 			for k := range allocKinds {
 				g.allocKinds[k] = true
 			}
@@ -101,6 +104,10 @@ func verifyFunction(ld *Loader, cs *ContractSet, fn *ssa.Function, c *Contract) 
 		}
 		// loop modification sets are recomputed from this pass
 		loopMods, loopAll = map[string]map[string]bool{}, map[string]bool{}
+		loopAllBut = map[string]map[string]bool{}
+		for k, v := range g.loopAllBut {
+			loopAllBut[k] = v
+		}
 		for k, v := range g.loopMods {
 			loopMods[k] = v
 		}
@@ -163,12 +170,48 @@ func runRoot(g *Gen, fn *ssa.Function, c *Contract, u *Unit) {
 	}
 	// cover: precondition satisfiable (must be sat)
 	g.seq++
-	g.covers = append(g.covers, &Oblig{Name: relFuncName(fn) + "#cover(pre)", Kind: "cover", seq: g.seq, reach: "true", goal: "false"})
+	g.covers = append(g.covers, &Oblig{Name: relFuncName(fn) + "#cover(pre)", Kind: "cover", seq: g.seq, reach: "true", goal: "false", blk: -1})
 	g.obligs = append(g.obligs, g.covers[len(g.covers)-1])
 
+	g.curBlk = -1
 	fc.genBody(entry, "true")
+	g.curBlk = -1
 
 	if len(fc.rets) == 0 {
+		return
+	}
+	if c.SplitPosts {
+		// one set of post / frame obligations per return statement: each sees only the code that can reach it
+		_, rn := sigNames(fn.Signature, nil, true)
+		for k, r := range fc.rets {
+			fc.cur = r.state
+			fc.curReach = r.reach
+			g.curBlk = r.blk
+			penv := fc.envAt(r.state, nil)
+			penv.oldState = entry
+			bindResults(penv, r.results, rn)
+			for i, en := range c.Ensures {
+				t := penv.boolExpr(en.Expr)
+				o := fc.oblige("post", fmt.Sprint(i+1), fn.Pos(), t, en.Src, en.Name)
+				o.Name += fmt.Sprintf("@return%d", k+1)
+			}
+			if c.ModSet {
+				n0 := len(g.obligs)
+				fc.frameObligations(entry, r.state, env, c)
+				for _, o := range g.obligs[n0:] {
+					o.Name += fmt.Sprintf("@return%d", k+1)
+				}
+			}
+		}
+		g.curBlk = -1
+		reach, st, rs := fc.mergeRets()
+		fc.cur = st
+		fc.curReach = reach
+		g.seq++
+		g.obligs = append(g.obligs, &Oblig{Name: relFuncName(fn) + "#cover(return)", Kind: "cover", seq: g.seq, reach: reach, goal: "false", blk: -1})
+		for i, r := range rs {
+			u.ParamInfo = append(u.ParamInfo, ParamInfo{Name: fmt.Sprintf("result%d", i), Term: r.t, Type: types.TypeString(r.ty, nil), Sort: g.sortOf(r.ty)})
+		}
 		return
 	}
 	reach, st, rs := fc.mergeRets()
@@ -176,7 +219,7 @@ func runRoot(g *Gen, fn *ssa.Function, c *Contract, u *Unit) {
 	fc.curReach = reach
 	// cover: some return reachable under pre
 	g.seq++
-	g.obligs = append(g.obligs, &Oblig{Name: relFuncName(fn) + "#cover(return)", Kind: "cover", seq: g.seq, reach: reach, goal: "false"})
+	g.obligs = append(g.obligs, &Oblig{Name: relFuncName(fn) + "#cover(return)", Kind: "cover", seq: g.seq, reach: reach, goal: "false", blk: -1})
 	penv := fc.envAt(st, nil)
 	penv.oldState = entry
 	_, rn := sigNames(fn.Signature, nil, true)
@@ -283,9 +326,6 @@ func (g *Gen) registerAxioms() {
 
 // stubs for extension points -----------------------------------------------------
 
-func (fc *FnCtx) specialInvoke(ins ssa.Instruction, cc *ssa.CallCommon, recv Val, args []Val, setResult func([]Val)) bool {
-	return false
-}
 
 // funcParamCall: a call through a function-typed parameter that has a `funcparam` contract.
 func (fc *FnCtx) funcParamCall(ins ssa.Instruction, cc *ssa.CallCommon, fv Val, args []Val, setResult func([]Val)) bool {
